@@ -6,6 +6,6 @@ bad=0
 for s in "$@"; do for p in C12 C18 C20 C10; do
   out=$(VERIF_EVIDENCE_DIR=${SWEEP_EVIDENCE:-/tmp/sweep-evidence} VERIF_REPLAY_DIR=${SWEEP_REPLAYS:-/tmp/sweep-replays} ${SIMCHECK:-/verif/bin/simcheck} $p -tier $TIER -seed $s ${SWEEP_ARGS:-} 2>&1); rc=$?
   echo "$p seed=$s rc=$rc $(printf '%s\n' "$out" | grep '^simcheck' | cut -c1-150)"
-  if [ $rc != 0 ]; then bad=1; printf '%s\n' "$out" | grep -v KNOWN | grep "violation\|VIOLATION\|harness\|fidelity" | cut -c1-300 | head -8; fi
+  if [ $rc != 0 ]; then bad=1; printf '%s\n' "$out" | grep -v KNOWN | grep "violation\|VIOLATION\|harness\|fidelity\|selftest:" | cut -c1-300 | head -8; fi
 done; done
 exit $bad
